@@ -1,17 +1,30 @@
 #!/bin/bash
-# tools/seedcheck.sh <seeded-name> [--tier quick|thorough] <PROP>...   apply seeded/<name>/patch.diff to /repo, run the checks, revert
+# tools/seedcheck.sh <seeded-name> [--tier quick|thorough] <PROP>...
+#   apply seeded/<name>/patch.diff to /repo, run the checks, revert; one result line per check is
+#   appended to seeded/<name>/checks.log (read by tools/seed_meta.py)
 cd /verif
 NAME=$1; shift
 TIER=quick
 if [ "$1" = "--tier" ]; then TIER=$2; shift 2; fi
 if ! git -C /repo diff --quiet; then echo "/repo has uncommitted changes"; exit 9; fi
+# evidence/ and replays/ must only ever hold results from the unchanged tree: save and restore them
+SAVE=$(mktemp -d /verif/scratch/seedsave.XXXXXX); cp -a evidence replays $SAVE/
 git -C /repo apply /verif/seeded/$NAME/patch.diff || exit 9
-trap 'git -C /repo checkout -- .' EXIT
+mkdir -p seeded/$NAME/replays
+restore() { git -C /repo checkout -- .; rm -rf /verif/evidence /verif/replays; mv $SAVE/evidence $SAVE/replays /verif/; rmdir $SAVE; }
+trap restore EXIT
 for P in "$@"; do
   s=$(date +%s)
   out=$(./check $P --tier $TIER 2>&1); rc=$?
   e=$(date +%s)
   nv=$(echo "$out" | grep -c "^VIOLATION")
-  echo "seed=$NAME check=$P tier=$TIER rc=$rc violations=$nv secs=$((e-s))"
+  first=$(echo "$out" | grep -m1 "^VIOLATION" | cut -c1-160)
+  line="seed=$NAME check=$P tier=$TIER rc=$rc violations=$nv secs=$((e-s)) verif_commit=$(git rev-parse --short HEAD)"
+  echo "$line"
+  echo "$line" >> seeded/$NAME/checks.log
   echo "$out" | grep -A2 "^VIOLATION" | head -8 | cut -c1-300
+  [ $rc -eq 2 ] && echo "$out" | tail -12
+  # keep the first counterexample found against this seed (a replayable artefact)
+  r=$(echo "$out" | grep -m1 "^VIOLATION" | sed -n 's/.*replay=\([^ ]*\).*/\1/p')
+  [ -n "$r" ] && [ -f "$r" ] && cp "$r" seeded/$NAME/replays/${P}_$(basename $r)
 done
